@@ -123,15 +123,18 @@ func (e *emmiter) AddListener(evt EventName, listeners ...Listener) error {
 		return nil
 	}
 
+	// nil listeners are skipped: the registration list never holds nil entries
 	events := make([]*eventEntry, len(listeners))
-	for i, event := range listeners {
+	n := 0
+	for _, event := range listeners {
 		if event == nil {
 			continue
 		}
-		events[i] = &eventEntry{fn: event, ptr: reflect.ValueOf(event).Pointer()}
+		events[n] = &eventEntry{fn: event, ptr: reflect.ValueOf(event).Pointer()}
+		n++
 	}
 
-	return e.addListeners(evt, events)
+	return e.addListeners(evt, events[:n])
 }
 
 // Alias: [AddListener]
@@ -204,15 +207,18 @@ func (e *emmiter) Once(evt EventName, listeners ...Listener) error {
 		return nil
 	}
 
+	// nil listeners are skipped: the registration list never holds nil entries
 	events := make([]*eventEntry, len(listeners))
-	for i, event := range listeners {
+	n := 0
+	for _, event := range listeners {
 		if event == nil {
 			continue
 		}
 		oneTime := &oneTimeListener{fired: &sync.Once{}, evt: evt, emitter: e, fn: event}
-		events[i] = &eventEntry{fn: oneTime.execute, ptr: reflect.ValueOf(event).Pointer()}
+		events[n] = &eventEntry{fn: oneTime.execute, ptr: reflect.ValueOf(event).Pointer()}
+		n++
 	}
-	return e.addListeners(evt, events)
+	return e.addListeners(evt, events[:n])
 }
 
 // RemoveListener removes the specified listener from the listener array for the event named eventName.
